@@ -113,6 +113,11 @@ func FilterKeys(k ...string) FetchOption {
 // FilterSelects only includes objects that select this label. If the selector is empty, it is a match.
 func FilterSelects(lbls map[string]string) FetchOption {
 	return func(h *dependency) {
+		// Need to distinguish empty vs unset. A user may pass in 'lbls' as nil (an object without labels), this doesn't
+		// mean they do not want it to filter at all: only objects with an empty selector select it.
+		if lbls == nil {
+			lbls = make(map[string]string)
+		}
 		h.filter.selects = lbls
 	}
 }
